@@ -34,6 +34,14 @@ fn main() -> anyhow::Result<()> {
             let rows = core::par_cases(total, a.seed, |ctx, _seed, i| gen_val::generate_exhaustive(ctx, &kind, maxlen, i));
             core::write_out(&a.out, &rows)
         }
+        Some("exdiff") => {
+            // bwh exdiff <stride> [mode]: the exhaustive small-scope edit scripts (every stride-th one)
+            let stride: usize = a.rest.first().and_then(|s| s.parse().ok()).unwrap_or(8);
+            let mode = a.rest.get(1).cloned().unwrap_or_else(|| "drift".into());
+            let total = gen_diff::exhaustive_diff_count(stride);
+            let rows = core::par_cases(total, a.seed, |ctx, _seed, k| gen_diff::generate_exhaustive_diff(ctx, stride, k, &mode));
+            core::write_out(&a.out, &rows)
+        }
         Some("tagseq") => {
             // bwh tagseq <maxlen>: every word over {start tag, end tag} of at most maxlen tags, in four comment layouts
             let maxlen: usize = a.rest.first().and_then(|s| s.parse().ok()).unwrap_or(8);
